@@ -58,6 +58,8 @@ PROGRAMS = [
     "def deco(f):\n    return f\n@deco\nclass D:\n    @deco\n    def m(self): pass\n",
     "r = a[1:2, ::3]\na[0] = b.c.d\ndel a[0]\n", "x = a @ b // c ** d << e >> f & g | h ^ i\n",
     "def k(a, /, b, *, c):\n    return locals()\n", "e = ...\nn = not a is b\nm = a not in b\n",
+    "a = 1\n" + "\n" * 200 + "b = 2\n" + "\n" * 400 + "c = 3\n",          # line deltas that do not fit one signed byte
+    "while a:\n" + "\n" * 300 + "    a -= 1\n" + "\n" * 140 + "z = a\n",    # ... forward and backward
     "def many():\n" + "".join("    v%d = %d\n" % (i, i) for i in range(300)) + "    return v299\n",
 ]
 
@@ -259,7 +261,7 @@ for path in files:
                 text = re.sub(r" at 0x[0-9a-fA-F]+", " at 0x?", text)   # object addresses
                 # how a nested code object *constant* is spelled differs between native and portable objects
                 # (known finding C07 listing-code-object-repr, decided by its own obligation): normalise here
-                text = re.sub(r"<(?:Code\w+ )?code object (\S+) at 0x\?, file \"?([^\">]*)\"?(?:>, line (\d+)|, line (\d+)>)",
+                text = re.sub(r"<(?:Code\w+ )?code object (.+?) at 0x\?, file \"?([^\">]*)\"?(?:>, line (\d+)|, line (\d+)>)",
                               lambda m: "<code object %s file %s line %s>" % (m.group(1), m.group(2), m.group(3) or m.group(4)), text)
                 out.append(["listing", hashlib.sha1(text.encode("utf-8", "backslashreplace")).hexdigest()])
         except ImportError as e:
@@ -283,9 +285,50 @@ so.write(json.dumps(res))
 _DIGESTS = {}
 
 
+_COMPILE = r'''
+import sys, json, marshal, os
+req = json.loads(sys.stdin.read())
+try:
+    import importlib.util
+    magic = importlib.util.MAGIC_NUMBER
+except ImportError:
+    import imp
+    magic = imp.get_magic()
+V = sys.version_info[:2]
+hdr = magic + (b"\0" * 12 if V >= (3, 7) else b"\0" * 8 if V >= (3, 3) else b"\0" * 4)
+made = []
+for i, src in enumerate(req["programs"]):
+    try:
+        co = compile(src, "prog%02d.py" % i, "exec")
+    except SyntaxError:
+        continue
+    path = os.path.join(req["dir"], "p%02d.pyc" % i)
+    f = open(path, "wb"); f.write(hdr + marshal.dumps(co)); f.close()
+    made.append(path)
+sys.stdout.write(json.dumps(made))
+'''
+
+_PROGFILES = []
+
+
+def program_files():
+    """PROGRAMS compiled by every real interpreter of the sandbox (scratch directory, removed at exit)"""
+    if not _PROGFILES:
+        import atexit
+        import shutil
+        import tempfile
+        root = tempfile.mkdtemp(prefix="c07prog")
+        atexit.register(shutil.rmtree, root, True)
+        for ver in sorted(oracles.INTERPS):
+            d = os.path.join(root, "prog_%d.%d" % ver)
+            os.mkdir(d)
+            _PROGFILES.extend(oracles.run_in(ver, _COMPILE.replace("-S", ""), {"programs": PROGRAMS, "dir": d}, timeout=300))
+    return list(_PROGFILES)
+
+
 def host_digests(host):
     if host not in _DIGESTS:
-        files = sorted(glob.glob("/repo/test/bytecode_*/*.pyc"))
+        files = sorted(glob.glob("/repo/test/bytecode_*/*.pyc")) + program_files()
         _DIGESTS[host] = oracles.run_in(host, _HOST_SCRIPT.replace("-S", ""), files, timeout=900)
     return _DIGESTS[host]
 
@@ -305,8 +348,8 @@ def hosts_ob(host, ref_host=(3, 12)):
         return None
 
     return Ob(id="C07.hosts.%d%d" % host, prop="C07", params=[], body=None, direct=q, replay=replay, funcs=FUNCS, region="hosts",
-              skeleton="repository bytecode corpus + opcode tables decoded under CPython %d.%d vs 3.12" % host,
-              bound="211 corpus files", timeout=900, oracle="R-real: the real host interpreters (confirmation run)")
+              skeleton="repository bytecode corpus, %d programs compiled by each real interpreter 2.7-3.13, and the opcode tables, decoded under CPython %d.%d vs 3.12" % ((len(PROGRAMS),) + host),
+              bound="211 corpus files + the compiled programs", timeout=900, oracle="R-real: the real host interpreters (confirmation run)")
 
 
 def listing_repr_ob():
